@@ -371,6 +371,8 @@ def run(ctx):
     for chunk in core.split(dense_cases(ctx), 16):
         jobs.append(("dense", chunk))
     part = core.fan_out(ctx, _dispatch, jobs)
+    from .. import callforms              # pylint: disable=import-outside-toplevel
+    part.merge(callforms.explore("C09"))
     cnt = part.counters
     total = cnt.get("cases", 0) + cnt.get("predicate_cases", 0)
     coverage = {
@@ -410,6 +412,9 @@ def _dispatch(job):
 
 
 def replay(case):
+    if case.get("kind") == "callform":
+        from .. import callforms          # pylint: disable=import-outside-toplevel
+        return callforms.replay(case)
     points = tuple(tuple(p) for p in case["points"])
     if case["kind"] == "pred":
         return [m for _c, m in check_predicate(points, case["tol"],
